@@ -95,6 +95,7 @@ def metrics_batch(item):
     U = item["U"]
     s = ObjSession(typ='futures', fee=fee, balance=1000.0)
     store.app.starting_time = T0
+    s.exchange.assets[s.exchange.settlement_currency] = 1234.0      # the current balance differs from the starting balance
     out = []
     for sp in item["specs"]:
         ts = [_mk_trade(m, ty, q, 60 + 60 * (i % 3), s.ex) for i, (m, ty, q) in enumerate(sp["trades"])]
@@ -184,7 +185,8 @@ def equity_run(item):
     pol = dict(item["policy"], spot=(typ == 'spot'), seed=seed)
     rec = S.Recorder(account=True).install()
     try:
-        out = S.run_backtest(pol, cfg, candles)
+        routes = [{'symbol': s_, 'timeframe': item.get("tf", "1m")} for s_ in syms]
+        out = S.run_backtest(pol, cfg, candles, routes=routes, fast=bool(item.get("fast")))
     finally:
         rec.uninstall()
     ex = cfg['exchange']
@@ -198,7 +200,8 @@ def equity_run(item):
         ev.append({"k": "daily", "value": sc(e['value'], flags), "wallet": wallet, "pos": pl, "active": al, "exact": flags[0],
                    "t": int(e['t'])})
         ev[-1]["exact"] = flags[0]
-    res = {"hdr": {"type": typ, "start": 10000 * 1024, "n": n, "syms": list(syms), "seed": seed}, "ev": ev, "exc": out["exc"],
+    res = {"hdr": {"type": typ, "start": 10000 * 1024, "n": n, "syms": list(syms), "seed": seed, "tf": item.get("tf", "1m"),
+                   "fast": bool(item.get("fast"))}, "ev": ev, "exc": out["exc"],
            "ntrades": 0}
     fin = out.get("final") or {}
     if out["exc"] is None and "accts" in fin:
@@ -209,10 +212,44 @@ def equity_run(item):
         wallet, pl, al = _proj(a, pos, active, flags)
         ev.append({"k": "final", "value": 0, "wallet": wallet, "pos": pl, "active": al, "exact": flags[0], "t": 0})
         res["ntrades"] = len(fin.get("trades", []))
+        res["mtrace"] = report_trace(fin.get("trades", []), (out.get("result") or {}).get("metrics"))
     return res
 
 
+def report_trace(trades, m):
+    """result['metrics'] of the run against the closed trades captured from the store (trade metrics only; exact runs only)"""
+    if m is None:
+        return None
+    U = 1024
+    ev, tot = [], 0
+    for t in trades:
+        fp, ff = Fraction(float(t["pnl"])) * U, Fraction(float(t["fee"])) * U
+        if fp.denominator != 1 or ff.denominator != 1:
+            return None                      # an average entry in thirds: not on the lattice
+        tot += abs(int(fp))
+        ev.append({"k": "trade", "pnl": int(fp), "typ": str(t["type"]), "fee": int(ff)})
+    if tot * 100 >= 2 * 10 ** 9:
+        return None
+    me = {"k": "metrics", "exc": "none", "m": {}}
+    keys = KEYS if trades else ["total", "win_rate", "net_profit_percentage"]
+    for k in keys:
+        if k not in m:
+            me["exc"] = "missing-key-" + k
+            me["m"] = {}
+            break
+        me["m"][k] = enc(m[k])
+    if trades and me["exc"] == "none":
+        me["m"]["sharpe2"] = enc(float("nan"))
+        me["m"]["sortino2"] = enc(float("nan"))
+    ev.append(me)
+    return {"hdr": {"U": U, "start": 10000, "short": False, "src": "in-vivo"}, "ev": ev}
+
+
 POLICIES = [
+    dict(qtys=(1, 2), p_cancel=0.01, entry_offsets=(-1, -2, 0, 0), entry_every=2, long_phase=1, short_phase=0, tp_dist=(15, 30),
+         sl_dist=(15, 30), p_edit=0.01, p_liquidate=0.0005, p_edit_on_reduced=0.0),
+    dict(qtys=(1,), p_cancel=0.0, entry_offsets=(-6, -8, -10), entry_every=1, long_phase=0, short_phase=0, allow_short=False,
+         tp_dist=(20, 40), sl_dist=(20, 40), p_edit=0.0, p_liquidate=0.0, max_entry_rows=2),
     dict(qtys=(1,), p_cancel=0.02, entry_offsets=(-2, -3, -4, 0), entry_every=3, long_phase=1, short_phase=2, tp_dist=(5, 12),
          sl_dist=(6, 12), p_edit=0.02, p_liquidate=0.002),
     dict(qtys=(1, 2), p_cancel=0.0, entry_offsets=(-3, -5, 2, 0), entry_every=2, long_phase=1, short_phase=0, tp_dist=(8, 20),
@@ -224,20 +261,23 @@ POLICIES = [
 
 def equity_items(ctx, rng):
     items = []
-    n_runs = ctx.pick(40, 640)
+    n_runs = ctx.pick(64, 640)
     k = 0
     while len(items) < n_runs:
         typ = ("futures", "spot")[k % 2]
         routes = [("BTC-USDT",), ("ETH-USDT",), ("BTC-USDT", "ETH-USDT"), ("ETH-USDT", "BTC-USDT")][(k // 2) % 4]
         if len(routes) == 1 and k % 3:
             routes = [("BTC-USDT", "ETH-USDT"), ("ETH-USDT", "BTC-USDT")][k % 2]
-        days = 1 + (k // 8) % ctx.pick(3, 4)
+        days = 1 + (k // 8) % 4
         extra = rng.choice([0, 1, 2, 7, 100, 1439])
         n = max(2, (days - 1) * 1440 + extra + (1 if days == 1 and extra == 0 else 0))
         if rng.random() < 0.25:
             n = days * 1440 + rng.choice([0, 1])        # exactly on / just after a day boundary
+        tf = "5m" if k % 5 == 4 else "1m"
+        if tf == "5m":
+            n = max(5, n - n % 5)
         items.append({"typ": typ, "syms": list(routes), "n": n, "seed": ctx.seed * 1000 + k, "fee_den": rng.choice([0, 64, 1024]),
-                      "policy": POLICIES[k % len(POLICIES)], "lev": rng.choice([1, 2, 4])})
+                      "policy": POLICIES[k % len(POLICIES)], "lev": rng.choice([1, 2, 4]), "tf": tf, "fast": (k // 3) % 3 == 2})
         k += 1
     return items
 
@@ -345,7 +385,18 @@ def run(ctx):
             t["_spec"] = {"fee_den": job["fee_den"], "U": job["U"], "spec": sp}
             traces.append(t)
     payload = {t["id"]: t.pop("_spec") for t in traces}
-    for want in ("M", "M-fee", "long", "M-bal"):
+    # ---------------- T: in-vivo runs (executed here so that their reports are judged together with the synthetic calls)
+    items = equity_items(ctx, rng)
+    runs = run_isolated(equity_run, items, procs=16)
+    n_report = 0
+    for it, rr in zip(items, runs):
+        if isinstance(rr, dict) and rr.get("mtrace"):
+            t = rr["mtrace"]
+            t["id"] = len(traces) + 1
+            payload[t["id"]] = {"kind": "equity", "item": it}
+            traces.append(t)
+            n_report += 1
+    for want in ("M", "M-fee", "long", "M-bal", "in-vivo"):
         t = next((t for t in traces if t["hdr"]["src"] == want and len(t["ev"]) > 3), None)
         if t is not None:
             samples.append({"kind": "R metrics call (%s)" % want, "inputs": [e for e in t["ev"] if e["k"] != "metrics"][:8],
@@ -368,9 +419,8 @@ def run(ctx):
             ctx.nontrivial.add(("metrics", i))
     ctx.log("R: %d metrics calls judged, %d rejected, %d expected values outside the lattice (not judged)" % (len(traces), bad, skipped))
     # ---------------- T: in-vivo equity
-    items = equity_items(ctx, rng)
-    runs = run_isolated(equity_run, items, procs=16)
     etraces = []
+    exc_kinds = {}
     excs = 0
     open_samples = 0
     resting_two = 0
@@ -378,6 +428,7 @@ def run(ctx):
         if isinstance(rr, tuple) and rr and rr[0] == 'EXC':
             raise Machinery("equity driver failed: %s" % rr[1])
         if rr["exc"] is not None:
+            exc_kinds[rr["exc"][:60]] = exc_kinds.get(rr["exc"][:60], 0) + 1
             excs += 1                 # a run that ends in a jesse exception is not judged for count / last sample
         tr = {"id": len(etraces) + 1, "hdr": rr["hdr"], "ev": rr["ev"]}
         etraces.append(tr)
@@ -396,18 +447,21 @@ def run(ctx):
             ebad += 1
             t = etraces[i - 1]
             cls = "%s:%d-route%s" % (t["hdr"]["type"], len(t["hdr"]["syms"]), "s" if len(t["hdr"]["syms"]) > 1 else "")
-            ctx.violation("equity:" + verdict, "run %d (%s %r, %d minutes, seed %d) rejected at event %d: %s; event %s" % (
-                i, t["hdr"]["type"], t["hdr"]["syms"], t["hdr"]["n"], t["hdr"]["seed"], l, verdict, json.dumps(t["ev"][l - 1])[:500]),
+            ctx.violation("equity:" + verdict, "run %d (%s %r %s%s, %d minutes, seed %d) rejected at event %d: %s; event %s" % (
+                i, t["hdr"]["type"], t["hdr"]["syms"], t["hdr"]["tf"], " fast" if t["hdr"]["fast"] else "", t["hdr"]["n"],
+                t["hdr"]["seed"], l, verdict, json.dumps(t["ev"][l - 1])[:500]),
                           {"kind": "equity", "item": items[i - 1]})
+    ctx.log("exceptions: %r" % (exc_kinds,))
     ctx.log("T: %d runs (%d ended in an exception), %d samples with an open position, %d with resting buys on two symbols, %d rejected"
             % (len(etraces), excs, open_samples, resting_two, ebad))
     ctx.evaluations = len(traces) + sum(len(t["ev"]) for t in etraces)
     ctx.coverage.update({
         "traces_validated_against_impl": len(traces) + len(etraces),
-        "metrics_calls": len(traces), "metrics_rejected": bad, "expected_values_outside_lattice": skipped,
-        "equity_runs": len(etraces), "equity_runs_ending_in_exception": excs, "equity_samples": sum(len(t["ev"]) for t in etraces),
+        "metrics_calls": len(traces), "reports_of_real_backtests_judged": n_report, "metrics_rejected": bad, "expected_values_outside_lattice": skipped,
+        "equity_runs": len(etraces), "equity_runs_fast_mode": sum(1 for t in etraces if t["hdr"]["fast"]),
+        "equity_runs_5m": sum(1 for t in etraces if t["hdr"]["tf"] == "5m"), "equity_runs_ending_in_exception": excs, "equity_samples": sum(len(t["ev"]) for t in etraces),
         "equity_samples_with_open_position": open_samples, "equity_samples_with_resting_buys_on_two_symbols": resting_two,
-        "equity_rejected": ebad, "model_counterexample_max_drawdown": model_cex,
+        "equity_rejected": ebad, "equity_exception_kinds": exc_kinds, "model_counterexample_max_drawdown": model_cex,
         "trace_events_checked_by_tlc": sum(x.generated for x in results) + sum(x.generated for x in res2),
         "samples": samples,
         "rule": "metrics: one case per trade list / balance list; non-trivial = >= 2 trades with mixed signs or a balance-list "
@@ -426,6 +480,12 @@ def replay(ctx, rp):
         print("replay verdict:", l, verdict, "exc:", rr["exc"])
         if verdict != "ok":
             ctx.violation("equity:" + verdict, "replay rejected at event %d: %s" % (l, verdict), p)
+        if rr.get("mtrace"):
+            t = dict(rr["mtrace"], id=1)
+            v, _ = tlc.validate_traces("TraceMetrics", "TraceMetrics.cfg", [t], ctx.scratch, parts=1)
+            print("replay verdict (report):", v[1][1] or "ok")
+            for verdict in v[1][1]:
+                ctx.violation(sig_metrics(verdict), "replay: %s" % verdict, p)
         return
     out = metrics_batch({"fee_den": p["fee_den"], "U": p["U"], "specs": [p["spec"]]})
     t = out[0]
